@@ -198,6 +198,12 @@ class FaultyCacheDefaultExists(Cache):
     def __repr__(self):
         return f"FaultyCacheDefaultExists({self.name})"
 
+    # a backend class written as a dataclass-like value object: it defines __eq__ and is therefore NOT hashable
+    def __eq__(self, other):
+        return self is other
+
+    __hash__ = None
+
 
 class FaultyFront(Cache):
     """A front (write-through tier, namespacing wrapper, ...) that delegates every call to an inner FaultyCache: the miss
@@ -284,7 +290,26 @@ class PartialBodyError(ValueError):
     pass
 
 
-def _body_impl(name, selector=False, mutates=(), fails_if=None):
+class NoCopy:
+    """Part of a body's return value that cannot be copied (a lock, an open handle, a connection)."""
+
+    def __init__(self, name):
+        self.name = name
+
+    def __deepcopy__(self, memo):
+        raise TypeError(f"cannot copy {self!r}")
+
+    def __copy__(self):
+        raise TypeError(f"cannot copy {self!r}")
+
+    def __reduce__(self):
+        raise TypeError(f"cannot pickle {self!r}")
+
+    def __repr__(self):
+        return f"<NoCopy {self.name}>"
+
+
+def _body_impl(name, selector=False, mutates=(), fails_if=None, returns=None):
     if selector:
 
         def impl(**kw):
@@ -301,6 +326,10 @@ def _body_impl(name, selector=False, mutates=(), fails_if=None):
                 rt.call("raise", name)
                 raise PartialBodyError(f"{name} is undefined for {fails_if['arg']}={fails_if['v']!r}")
             value = rt.body_value(name, kw)
+            if returns is not None and returns[0] == "uncopyable":
+                value = [value, NoCopy(name)]  # a container holding something that cannot be copied
+            elif returns is not None and returns[0] == "node":
+                value = returns[1]  # the body hands back an Evaluatable OBJECT (a deferred job, a registry entry) as a plain value
             for a in mutates:
                 # a body that works on its argument IN PLACE (sorts a list, fills in a section), as user code does
                 if isinstance(kw.get(a), list):
@@ -637,7 +666,8 @@ class Program:
     def _b_dataset(self, n):
         name = n["name"]
         argnames = list(n.get("args", {}))
-        fn = make_fn(name, argnames, [self.ref(n["args"][a]) for a in argnames], _body_impl(name, n.get("body") == "selector", tuple(n.get("mutates", ())), n.get("fails_if")))
+        fn = make_fn(name, argnames, [self.ref(n["args"][a]) for a in argnames], _body_impl(name, n.get("body") == "selector", tuple(n.get("mutates", ())), n.get("fails_if"),
+                                                                                               returns=self._returns(n)))
         kw = {}
         disp = n.get("dispatch")
         if disp is not None:
@@ -691,6 +721,14 @@ class Program:
         for alias, impl in n.get("overloads", []):
             self.register(ds, alias, impl, cache_kind=ck)
         return ds
+
+    def _returns(self, n):
+        r = n.get("returns")
+        if not r:
+            return None
+        if r == "uncopyable":
+            return ("uncopyable",)
+        return ("node", self.ref(r["node"]))
 
     def register(self, ds, alias, impl, cache_kind="default"):
         """impl: {"n": id} (register an existing node) | {"fn": name, "args": {...}} (overload decorator)."""
